@@ -177,9 +177,16 @@ func (a *AvailableCommands) Decode(c *proto.PacketContext, rd io.Reader) error {
 
 		for i := 0; i < len(queue); {
 			node := queue[i]
+			wasBuilt := node.Built != nil
 			ok, err = node.toNodes(wireNodes)
 			if err != nil {
 				return err
+			}
+			if !wasBuilt && node.Built != nil {
+				// The node itself now exists although its children do not yet: nodes
+				// redirecting to it (e.g. "execute as ..." back to "execute") can be
+				// built in the next round, so this round made progress.
+				cycling = true
 			}
 			if ok {
 				cycling = true
